@@ -112,11 +112,11 @@ func runControl(def *PropertyDef, dir, name string) (cr ControlResult) {
 
 type Variant struct {
 	Name    string `json:"name"`
-	Rule    string `json:"rule"`   // rule id (prefix) expected to fire
-	File    string `json:"file"`   // file relative to the repo
-	Find    string `json:"find"`   // anchor text, must occur exactly once
+	Rule    string `json:"rule"` // rule id (prefix) expected to fire
+	File    string `json:"file"` // file relative to the repo
+	Find    string `json:"find"` // anchor text, must occur exactly once
 	Replace string `json:"replace"`
-	Expect  string `json:"expect"` // substring expected in the report line (usually a function name)
+	Expect  string `json:"expect"`  // substring expected in the report line (usually a function name)
 	Inverse bool   `json:"inverse"` // if true: the variant must be silent for Rule
 	Patch   string `json:"patch"`   // instead of File/Find/Replace: a unified diff (path relative to the verification directory) applied with git apply
 	Edits   []struct {
